@@ -93,6 +93,11 @@ class Engine:
             return False
 
     def _step(self, op) -> bool:
+        if op[0] == "cache":
+            # the program-wide caching switch is part of the configuration a history runs under
+            Vertex.NEIGHBOR_CACHING = bool(op[1])
+            self.executed.append(op)
+            return True
         if op[0] == "burst":
             n_before = len(self.executed)
             ok = self.step_burst(op[1])
@@ -326,6 +331,10 @@ def generate(rng, profile, checks, nops, strict=False, counters=None, weights=No
     Vertex.NEIGHBOR_CACHING = False
     eng = Engine(checks, strict, counters)
     g = gen.Gen(rng, profile, weights)
+    if rng.random() < 0.3:
+        eng.step(["cache", True])
+        if counters is not None:
+            counters["histories_with_neighbor_caching_on"] += 1
     for op in g.initial(eng.pool, nv=nv):
         eng.step(op)
     if (profile in ("C02", "C19", "C03") and rng.random() < 0.8) or (profile == "C01" and rng.random() < 0.5):
@@ -409,6 +418,9 @@ BASE_LAWS = {
                  ["set_laws", "U1", "W0"]],
     # a universe that contains another universe (and itself) while laws move around
     "nested": [["mku", "U0", [], None], ["mku", "U1", ["U0"], None], ["u_add", "U1", "U1"], ["mkw", "W0", 0], ["mkw", "W1", 2]],
+    # a law set that is FILED under a universe it does not govern (BaseObject.add_to_universe), and a free one filed too
+    "filed": [["mku", "U0", [], None], ["mku", "U1", [], None], ["mkw", "W0", 0], ["set_laws", "U0", "W0"],
+              ["w_file", "W0", "U1"], ["mkw", "W1", 1], ["w_file", "W1", "U0"]],
 }
 
 
